@@ -2,6 +2,8 @@
 mod c04;
 mod ev;
 mod meter;
+mod refz;
+mod selftest;
 mod xplore;
 
 #[global_allocator]
@@ -48,6 +50,7 @@ fn main() {
     }
     let code = match id.as_str() {
         "C04" => c04::main(tier, replay),
+        "SELFTEST" => selftest::main(),
         _ => {
             eprintln!("no check for {id}");
             2
